@@ -43,3 +43,12 @@ Theorem C43_record_prop_of_model : forall vers clen full,
   prop_C43 (VL [VZ 2; VZ vers; VZ clen; VB full]) (run_C43 (VL [VZ 2; VZ vers; VZ clen; VB full])) = true.
 Proof. exact prop_C43_record_of_model. Qed.
 Print Assumptions C43_record_prop_of_model.
+
+(* SSLv3 remover: accepts exactly when p+1 <= length and removes p+1 bytes, for every payload. *)
+Theorem C43_ssl30_exact : forall pl, wf_bytes pl = true -> remove_padding_ssl30 pl = spec_remove_ssl30 pl.
+Proof. exact remove_padding_ssl30_exact. Qed.
+Print Assumptions C43_ssl30_exact.
+Theorem C43_ssl30_prop_of_model : forall pl,
+  wf_bytes pl = true -> prop_C43 (VL [VZ 3; VB pl]) (run_C43 (VL [VZ 3; VB pl])) = true.
+Proof. exact prop_C43_ssl30_of_model. Qed.
+Print Assumptions C43_ssl30_prop_of_model.
